@@ -391,4 +391,7 @@ def build(S, tier):
                "quansino.mc.core.MonteCarlo.validate_simulation", "quansino.mc.canonical.Canonical.validate_simulation", "quansino.mc.canonical.HamiltonianCanonical.validate_simulation",
                "quansino.mc.isobaric.Isobaric.validate_simulation", "quansino.mc.core.MonteCarlo.yield_moves"):
         S.register_function(I0, fn, 1)
+    # a restart rebuilds every component by name: the name must lead back to the class that wrote it
+    from contracts.common_registry import registry_identity
+    registry_identity(S, "components rebuilt by name on restart")
     return meta
